@@ -153,6 +153,8 @@ def _programs() -> list[tuple]:
     out.append(([O_['Symbol'], 0, O_['Publish']], [O_['Symbol'], 0, O_['Publish'], O_['Symbol'], 0, O_['Publish']], [O_['Load'], 0, O_['Publish'], O_['Load'], 0, O_['Publish']]))
     # mu over a pending element substitution: the body's polarity depends on the plug being s_fresh
     out.append(([], [], [O_['MetaVar'], 1, 0, 1, 0, 0, 0, 0, O_['MetaVar'], 0, 0, 0, 1, 0, 0, 0, O_['ESubst'], 1, O_['Mu'], 0]))
+    # an inner mu re-binding the outer binder's set variable on the left of an implication: the shadowed occurrence is not a negative one
+    out.append(([], [], [O_['SVar'], 0, O_['Mu'], 0, O_['SVar'], 0, O_['Mu'], 0, O_['Implies'], O_['Mu'], 0]))
     return out
 
 
